@@ -36,7 +36,7 @@ VF_ROUNDS=4 "$W/drv_threads" --prop C19 --tier quick --seed 1 --shard 0 --nshard
 cd "$W/lib"
 : > "$OUT/unexecuted.txt"
 for s in "$REPO"/src/*.cpp; do
-    gcov -o "$W/lib" "$s" >/dev/null 2>&1 || true
+    gcov -b -c -o "$W/lib" "$s" >/dev/null 2>&1 || true
 done
 # headers: take the union over the library objects and the driver objects
 for g in "$W"/lib/*.gcov; do
